@@ -313,6 +313,69 @@ fn initial_script() -> Vec<J> {
     ]
 }
 
+/// History 1 of every run: one request per way of stepping outside the agreement's scope, each otherwise valid.
+fn scope_script() -> Vec<J> {
+    let sync = |ag: &str, idk: &str, from: &str, entries: Vec<J>, mode: &str, ids: Vec<&str>| {
+        json!({"op":"sync","ag":ag,"idk":idk,"req":{"from":from,"entries":entries,"retain":{"mode":mode,"ids":ids}}})
+    };
+    let g = |id: &str, ext: bool, extra: J| {
+        let mut a = json!({"name":[format!("s{}", id.replace('-', ""))]});
+        if let Some(m) = extra.as_object() { for (k, v) in m { a[k] = v.clone(); } }
+        ent(id, "group", ext, a)
+    };
+    let p = |id: &str, ext: bool| ent(id, "person", ext, json!({"name":[format!("s{id}")],"displayname":["dnx"]}));
+    let admins = UUID_IDM_ADMINS.to_string();
+    let mut v = vec![
+        // entries of the other agreement, native entries, recycled ones: with and without an external id
+        sync("e50", "synch", "active", vec![g("e3", false, json!({"description":["d2"]}))], "ignore", vec![]),
+        sync("e50", "synch", "active", vec![g("e3", true, json!({"description":["d2"]}))], "ignore", vec![]),
+        sync("e50", "synch", "active", vec![p("e4", false)], "ignore", vec![]),
+        sync("e50", "synch", "active", vec![p("e4", true)], "ignore", vec![]),
+        sync("e50", "synch", "active", vec![g("e6", false, json!({"description":["d2"]}))], "ignore", vec![]),
+        sync("e50", "synch", "active", vec![g("e6", true, json!({}))], "ignore", vec![]),
+        sync("e50", "synch", "active", vec![g("e5", true, json!({}))], "ignore", vec![]),
+        sync("e50", "synch", "active", vec![g("e5", false, json!({}))], "ignore", vec![]),
+        sync("e50", "synch", "active", vec![ent(&admins, "group", false, json!({"name":["idm_admins"],"description":["owned"]}))], "ignore", vec![]),
+        sync("e50", "synch", "active", vec![ent(&admins, "group", true, json!({"name":["idm_admins"]}))], "ignore", vec![]),
+        // a valid own entry together with a foreign one
+        sync("e50", "synch", "active", vec![g("e2", true, json!({})), g("e3", false, json!({}))], "ignore", vec![]),
+        // deletes outside the scope
+        sync("e50", "synch", "active", vec![], "delete", vec!["e3"]),
+        sync("e50", "synch", "active", vec![], "delete", vec!["e4"]),
+        sync("e50", "synch", "active", vec![], "delete", vec!["e6", "e2"]),
+        sync("e50", "synch", "active", vec![], "delete", vec![&admins]),
+        sync("e51", "synch", "active", vec![], "delete", vec!["e1"]),
+        sync("e51", "synch", "active", vec![g("e2", false, json!({"description":["mine"]}))], "ignore", vec![]),
+        // attributes outside the agreement's authority
+        sync("e50", "synch", "active", vec![g("e2", true, json!({"entry_managed_by":["e20"]}))], "ignore", vec![]),
+        sync("e50", "synch", "active", vec![g("e2", true, json!({"sync_parent_uuid":["e51"]}))], "ignore", vec![]),
+        sync("e50", "synch", "active", vec![g("e2", true, json!({"uuid":["e77"]}))], "ignore", vec![]),
+        sync("e50", "synch", "active", vec![ent("e2", "system", true, json!({"name":["se2"]}))], "ignore", vec![]),
+        // wrong identities / states
+        sync("e50", "user", "active", vec![g("e2", true, json!({}))], "ignore", vec![]),
+        sync("e50", "synch_rw", "active", vec![g("e2", true, json!({}))], "ignore", vec![]),
+        sync("e50", "synch", "stale", vec![g("e2", true, json!({}))], "ignore", vec![]),
+        // yielded authority: the agreement must leave description alone afterwards
+        json!({"op":"yield","ag":"e50","y":["description"]}),
+        sync("e50", "synch", "active", vec![g("e2", true, json!({"description":["d2"]}))], "ignore", vec![]),
+        sync("e50", "synch", "active", vec![g("e2", true, json!({}))], "ignore", vec![]),
+    ];
+    // users on synchronised entries: every attribute of the grant-all profile, yielded or not
+    let it = |k: &str, a: &str, vv: Vec<&str>| json!({"k": k, "a": a, "v": vv});
+    for t in ["e1", "e2", "e3", "e4"] {
+        for ml in [json!([it("purge", "description", vec![]), it("pres", "description", vec!["u1"])]),
+                   json!([it("purge", "displayname", vec![]), it("pres", "displayname", vec!["udn"])]),
+                   json!([it("pres", "legalname", vec!["ul"])]),
+                   json!([it("purge", "name", vec![]), it("pres", "name", vec![&format!("u{t}")])]),
+                   json!([it("purge", "member", vec![])]),
+                   json!([it("purge", "sync_external_id", vec![])]),
+                   json!([it("purge", "user_auth_token_session", vec![])])] {
+            v.push(json!({"op":"umod","idd":{"u":"e10","scope":"rw"},"t":t,"ml":ml}));
+        }
+    }
+    v
+}
+
 pub fn run(o: &Opts) -> i32 {
     let out = o.str("out", "/verif/work/C50/obs.ndjson");
     runtime().block_on(async {
@@ -340,6 +403,9 @@ pub fn run(o: &Opts) -> i32 {
                     // the model's counterexample: an id from the reserved system range that does not exist yet
                     v.push(json!({"op":"sync","ag":"e50","idk":"synch","req":{"from":"active","entries":[
                         ent("b7","group",true,json!({"name":["sb7"]}))],"retain":{"mode":"ignore","ids":[]}}}));
+                }
+                if h == 1 {
+                    v.extend(scope_script());
                 }
                 let mut fresh = 0;
                 for _ in 0..o.u64("steps", 25) {
